@@ -136,6 +136,12 @@ def parseSched (b : Sexp) : Option (List (Nat × Nat × Option Nat)) := do
   let b ← list? b
   b.mapM parsePair
 
+def parseSetter : Sexp → Option Setter
+  | .list [.atom "code", c] => (bytes? c).map Setter.code
+  | .list [.atom "curt", b] => (bool? b).map Setter.curt
+  | .list [.atom "size", n] => (nat? n).map Setter.size
+  | _ => none
+
 def e2eRun (cfg : TxCfg) (authic : Bool) (vid : Option (List Nat)) (stab : List (List Nat × List Nat × List Nat))
     (vtab : List (List Nat × List Nat × List Nat × Option Exn)) (memos : List (List Nat × List Nat × Nat))
     (sched : List (List (Nat × Nat × Option Nat))) : Sexp :=
@@ -146,7 +152,7 @@ def e2eRun (cfg : TxCfg) (authic : Bool) (vid : Option (List Nat)) (stab : List 
       if gs.isEmpty then none else (gs[p.2.1 % gs.length]?).map fun g => (g, p.2.2.getD tm.2.2)
     | _, _ => none
   let batches : List (List (List Nat × Nat)) := sched.map fun (b : List (Nat × Nat × Option Nat)) => b.filterMap pick1
-  Sexp.list [tag "rend" (rs.map outGrams), tag "rx" (rxRun authic (mkV vtab) batches [] [])]
+  Sexp.list [tag "cfg" [ofBytes cfg.code, ofBool cfg.curt, ofNat cfg.size], tag "rend" (rs.map outGrams), tag "rx" (rxRun authic (mkV vtab) batches [] [])]
 
 def handle (req : Sexp) : Sexp :=
   match req with
@@ -178,7 +184,10 @@ def handle (req : Sexp) : Sexp :=
       let memos ← memos.mapM parseMemo
       let sched ← field "sched" fs
       let sched ← sched.mapM parseSched
-      some (e2eRun ⟨code, curt, size⟩ authic vid stab vtab memos sched)).getD (sym "bad-request")
+      let hist ← (field "hist" fs).getD [] |>.mapM parseSetter
+      match (mkCfg code curt size).bind (fun c => applySetters c hist) with
+      | .ok cfg => some (e2eRun cfg authic vid stab vtab memos sched)
+      | .error e => some (Sexp.list [tag "cfg-raise" [sym (exnName e)]])).getD (sym "bad-request")
   | _ => sym "bad-request"
 
 def main : IO Unit := serve handle
